@@ -61,10 +61,53 @@ func genReplacerTree() string {
 		return nil
 	})
 	sort.Strings(rows)
+
+	// the reverse proxy's dial address: who calls fillDialInfo (the one place where an upstream's Dial meets the
+	// replacer), and which composite literals build an Upstream with a computed Dial (a Dial made from the RESULT of
+	// an expansion would be expanded again by fillDialInfo)
+	var callers, dialLits []string
+	for _, name := range []string{"reverseproxy.go", "hosts.go", "healthchecks.go", "upstreams.go", "selectionpolicies.go", "httptransport.go", "caddyfile.go", "command.go", "admin.go"} {
+		rel := "modules/caddyhttp/reverseproxy/" + name
+		_, f := parseFile(rel)
+		if f == nil {
+			continue
+		}
+		for _, dcl := range f.Decls {
+			fd, ok := dcl.(*ast.FuncDecl)
+			if !ok || fd.Body == nil {
+				continue
+			}
+			ast.Inspect(fd.Body, func(x ast.Node) bool {
+				switch t := x.(type) {
+				case *ast.CallExpr:
+					if se, ok := t.Fun.(*ast.SelectorExpr); ok && se.Sel.Name == "fillDialInfo" {
+						callers = append(callers, "("+leanStr(name)+", "+leanStr(fd.Name.Name)+")")
+					}
+				case *ast.CompositeLit:
+					if id, ok := t.Type.(*ast.Ident); ok && id.Name == "Upstream" {
+						for _, el := range t.Elts {
+							if kv, ok := el.(*ast.KeyValueExpr); ok {
+								if k, ok := kv.Key.(*ast.Ident); ok && k.Name == "Dial" {
+									dialLits = append(dialLits, "("+leanStr(name)+", "+leanStr(fd.Name.Name)+", "+leanStr(exprText(kv.Value))+")")
+								}
+							}
+						}
+					}
+				}
+				return true
+			})
+		}
+	}
+	sort.Strings(callers)
+	sort.Strings(dialLits)
 	var sb strings.Builder
 	sb.WriteString(header)
 	sb.WriteString("/-- every Replace* call of the tree: (file, function, method, first argument), sorted -/\n")
 	sb.WriteString("def replacerTreeCallSites : List (String × String × String × String) := [\n  " + strings.Join(rows, ",\n  ") + "\n]\n")
+	sb.WriteString("\n/-- modules/caddyhttp/reverseproxy: (file, function) of every call of (*Upstream).fillDialInfo -/\n")
+	sb.WriteString("def fillDialInfoCallers : List (String × String) := [" + strings.Join(callers, ", ") + "]\n")
+	sb.WriteString("\n/-- modules/caddyhttp/reverseproxy: (file, function, value) of every `Upstream{… Dial: value …}` literal -/\n")
+	sb.WriteString("def upstreamDialLiterals : List (String × String × String) := [" + strings.Join(dialLits, ", ") + "]\n")
 	sb.WriteString(footer)
 	return sb.String()
 }
